@@ -22,8 +22,10 @@ ASSUME = [
     'smallest graphs) commands per execution offered at every main-loop '
     'boundary',
     'required outputs are read off the graph term: outputs used without `?`;'
-    ' --out=skip, --flow=new/none, --wait, xtrigger prerequisites in quick, '
-    'family/glob targets are not generated',
+    ' --out=skip, --flow=new/none, --wait, family/glob targets are not '
+    'generated; xtrigger prerequisites (xtrigger/<label>, xtrigger/all, a '
+    'non-existent label) only in the thorough entry `xtrig`, whose xtrigger '
+    'function always succeeds when the scheduler calls it',
     'children = instances with an atom on the output in the term '
     '(RefGraph.children); a child that already left the pool earlier in the '
     'run is not expected to be spawned again; outputs that were already '
@@ -185,6 +187,20 @@ def run(ctx: Ctx) -> Result:
         ctx, [make_factory(s, ctx.tier) for s in specs],
         max_states=ctx.pick(4000, 40000), max_seconds=ctx.pick(300, 2400))
     counts = COUNTS.collect(ctx.scratch)
+    if not st.error and not st.violations:
+        # vacuity guards: every clause of the statement was exercised
+        need = ['forced:succeeded', 'natural:succeeded', 'obligations']
+        prefixes = ['set_out:default:', 'set_out:started:', 'set_out:failed:',
+                    'set_pre:all:', 'set_pre:own:', 'set_pre:foreign:',
+                    'set_pre:mixed:']
+        missing = [k for k in need if not counts.get(k)]
+        missing += [p for p in prefixes
+                    if not any(k.startswith(p) for k in counts)]
+        missing += [w for w in (':active', ':unspawned', ':finished')
+                    if not any(k.endswith(w) for k in counts)]
+        if missing:
+            raise HarnessError(
+                f'vacuous exploration: never observed {missing}')
     return result_from(
         ctx, st, prop='C29',
         bounds={'workflows': sorted({s['base'] for s in specs}),
